@@ -33,7 +33,8 @@ type callRec struct {
 }
 
 // gauge ops: 0 Set v, 1 Add v, 2 Sub v, 3 Inc, 4 Dec, 5 Write ; counter ops: 0 Inc, 1 Add v, 2 Write,
-// 3 Add v through the AddWithExemplar entry point (the model's Add: same accumulator steps, same panic rule)
+// 3/4 Add v through the AddWithExemplar entry point, with / without exemplar labels (the model's Add: same
+// accumulator steps, same panic rule)
 func opSx(gauge bool, o op) string {
 	if gauge {
 		switch o.kind {
@@ -43,7 +44,7 @@ func opSx(gauge bool, o op) string {
 			return emit.C(o.kind)
 		}
 	}
-	if o.kind == 1 || o.kind == 3 {
+	if o.kind == 1 || o.kind == 3 || o.kind == 4 {
 		return emit.C(1, emit.F(o.v))
 	}
 	return emit.C(o.kind)
@@ -93,6 +94,8 @@ func doOp(gauge bool, g prometheus.Gauge, c prometheus.Counter, o op) (ret strin
 		return emit.C(2, emit.F(counterVal(c)))
 	case 3:
 		c.(prometheus.ExemplarAdder).AddWithExemplar(o.v, prometheus.Labels{"trace": "t"})
+	case 4: // nil exemplar labels are legal: only the value is added
+		c.(prometheus.ExemplarAdder).AddWithExemplar(o.v, nil)
 	}
 	return emit.C(0)
 }
@@ -242,7 +245,7 @@ func genOp(r *emit.Rng, gauge bool) op {
 	}
 	add := 1
 	if r.Chance(1, 4) {
-		add = 3 // the same amount through AddWithExemplar
+		add = 3 + r.Intn(2) // the same amount through AddWithExemplar (with labels / with nil labels)
 	}
 	switch r.Intn(10) {
 	case 0, 1:
@@ -252,7 +255,7 @@ func genOp(r *emit.Rng, gauge bool) op {
 	case 4:
 		return op{kind: add, v: float64(1 + r.Intn(1000))}
 	case 5:
-		vals := []float64{-1, -0.5, 0, math.Ldexp(1, 53), math.Ldexp(1, 63), math.Ldexp(1, 62), 0.1, 1e-300, math.Ldexp(1, 64)}
+		vals := []float64{-1, -0.5, -1e-10, -5e-324, math.Copysign(0, -1), 0, math.Ldexp(1, 53), math.Ldexp(1, 63), math.Ldexp(1, 62), 0.1, 1e-300, math.Ldexp(1, 64)}
 		if is386 {
 			vals = vals[:len(vals)-1] // out-of-range float->uint64 conversion is platform-specific (the model's is amd64's)
 		}
